@@ -18,3 +18,23 @@ package connector
 //verif:call-preserves $field.storeFunc : err$1 because "err is a local of flushNow that is captured only by the callback closures created afterwards; a store function cannot reach it"
 //verif:call-preserves Transaction.Commit : err$1 because "see above"
 //verif:call[store-inside-transaction] $field.storeFunc requires succeeded("DB.NewTransaction") && !called("Transaction.Commit")
+
+// A new flush generation is started only after the running one finished its
+// write (the receive from its writeDone), is published under p.m before it is
+// spawned, and takes the whole pending batch.
+//verif:func (*Persister).triggerFlush(p, ctx)
+//verif:call[serialized-behind-running-flush] go:(*Persister).flushNow requires (old(p.flush) != nil ==> called("$recv.writeDone")) && stored("flush") && arg2 == old(p.batch) && arg3 == p.flush && p.batch == nil
+
+// The callback registered by this call and the snapshot prepared by this call
+// travel together in one batch entry.
+//verif:func (*Persister).Persist(p, ctx, conn, callback) (err)
+//verif:ensures[registered-together] err == nil ==> succeeded("Store.PrepareSet") || succeeded("(*Store).PrepareSet")
+
+// The flush callback: a failed flush releases nothing; a successful one raises the
+// durable mark to at least seq and hands over exactly the pending acks covered by it.
+//verif:func (*Source).onPersistFlushed(s, seq, err)
+//verif:monitor ackMu guards durableAckSeq, pendingAcks, deferredAckQueue, deferredAckClosed
+//verif:loop 0 invariant 0 <= i && i <= len(s.pendingAcks) && err == nil && s.durableAckSeq >= seq
+//verif:call[failed-flush-touches-nothing] (*Mutex).Lock@ackMu requires err == nil
+//verif:call[hand-over-only-durable] builtin.append requires err == nil && s.pendingAcks[i].seq <= s.durableAckSeq && s.durableAckSeq >= seq && !s.deferredAckClosed
+//verif:store[durable-mark-only-forward] durableAckSeq requires err == nil && newval == seq && seq > s.durableAckSeq
